@@ -15,10 +15,10 @@ MANIFEST = {
             "accepting path; nested transformations applied by apply() "
             "are pre-validated or guarded (shared with C26). Decides that "
             "the documented guards are executed for every target.",
-    "note": "The values computed by the generated code, Fortran "
-            "array-assignment semantics for overlapping sections "
-            "(a(2:10)=a(1:9) has no guard today) and signed zeros / NaNs "
-            "are NOT decided.",
+    "note": "R2 shows that overlapping sections (a(2:n)=a(1:n-1)) have no "
+            "guard (known finding C06-a, confirmed input). The values "
+            "computed by the generated code, signed zeros / NaNs are NOT "
+            "decided.",
     "technique": "must-pass-through over a reviewed obligation table",
 }
 TABLE = {
@@ -102,5 +102,24 @@ def check(idx, run):
                   f"{cls.name}.validate does not call the base-class "
                   f"checks (intrinsic kind, enclosing assignment)",
                   loc(cls.module, func))
-    run.assumptions = ["values computed by the generated code are not "
-                       "decided"]
+    # R2: Fortran evaluates the whole right-hand side before it assigns; an
+    # element-by-element loop is only equivalent when the array assigned to
+    # is not read at *other* elements on the right-hand side.
+    acls = idx.get_class("ArrayAssignment2LoopsTrans")
+    vfunc = acls.methods["validate"]
+    vtxt = " ".join(ast.unparse(vfunc).split())
+    facts = ("node.lhs.symbol", "lhs.name", "lhs.get_signature",
+             "DependencyTools", "VariablesAccessInfo", "is_same_array",
+             "same_array", "overlap")
+    run.check(
+        "C06.R2", any(f in vtxt for f in facts),
+        "ArrayAssignment2LoopsTrans.validate",
+        "the assigned array read with other subscripts on the right-hand "
+        "side is refused",
+        "validate never relates the array on the left-hand side to the "
+        "references on the right-hand side: `a(2:n) = a(1:n-1)` is turned "
+        "into `do idx=2,n: a(idx) = a(idx-1)`, which copies a(1) into every "
+        "element, whereas the array assignment shifts a by one",
+        loc(acls.module, vfunc))
+    run.assumptions = ["beyond R2, values computed by the generated code "
+                       "are not decided"]
